@@ -89,7 +89,7 @@ pub fn run(ctx: &mut Ctx) {
         if len == 33 && z[32] == 0 { z[32] = 1; }
         let out = exec(2, &[z.clone()]);
         let o: Vec<&[u8]> = out.iter().map(|x| x.as_slice()).collect();
-        ctx.case(2, if len == 33 { "try_from_bigint:33bytes" } else { "try_from_bigint" }, &[&z], &o);
+        ctx.case(2, if len == 33 { "outside-domain:try_from_bigint of a 33-byte value" } else { "try_from_bigint" }, &[&z], &o);
         if len <= 32 {
             let n = *rng.pick(&moduli);
             // make some values exact multiples of small moduli
